@@ -26,6 +26,7 @@ func init() {
 		Level: "exploration",
 		Rule: "edit histories over the public API (add global/function/block, append/insert/remove instruction, set/replace terminator, rename, add metadata, functions/globals/calls over a shared literal struct type and the step that names or renames that type, replacing the callee of a call, declaring a global and giving it an initializer later, putting a metadata definition in front of the others, integer constants shared by several operands and edited in place, float constants built from values beyond 24 bits, block addresses taken from another function; 6-40 steps, PRNG) are replayed on fresh modules: once alone (reference) and once per observer placement (every position x every observer kind for histories of <=10 steps, PRNG subsets of positions and observers for longer ones; observers: Module.String, WriteTo, Func.LLString, Block.LLString, inst.LLString, Type, Ident, String, Operands, Succs, AssignIDs). The final String() must equal the reference, no observer may make a later step or print panic, two consecutive prints must agree. " +
 			"Witness literal-built: a module holding an alias, an ifunc and a phi built as struct literals is printed (entity, function, module) once after Type()/String() were called on them and once without: same texts, no panic. " +
+			"Further steps: attribute groups (add, fill, reorder), comdats (set, list, drop), alloca/gep with address spaces set afterwards, globals in address spaces (parsed, built as struct literals, edited back to 0, exchanged after a print) with typed loads. Witness failed-print: a print of an unfinished function panics and is recovered, then the same and other modules are printed and compared with a process that never saw the failure. " +
 			"non-trivial = a replay with at least one observer followed by at least one edit; distinct by (history, placement). " +
 			"Histories that shift the numbering of already numbered unnamed values (insert/remove/rename before numbered values after an observer) are part of the PRNG composer and are also run as eight dedicated minimal witness histories",
 		Gen:           genC14,
@@ -400,6 +401,36 @@ func (h *hstate) apply(s hstep) {
 			m.NamedMetadataDefs["front"] = nd
 		}
 		nd.Nodes = append(nd.Nodes, t)
+	case "gload":
+		// a typed use of a global variable
+		f := h.fn(s.F)
+		b := h.blk(f, s.B)
+		if b == nil || len(m.Globals) == 0 {
+			return
+		}
+		g := m.Globals[s.I%len(m.Globals)]
+		ld := ir.NewLoad(g.ContentType, g)
+		ld.SetName(s.Name)
+		b.Insts = append(b.Insts, ld)
+	case "gliteral":
+		// a global variable built as a struct literal in a non-default address space
+		// (its pointer type is computed when first asked for)
+		g := &ir.Global{ContentType: types.I32, Init: constant.NewInt(types.I32, int64(s.N)), AddrSpace: types.AddrSpace(1 + s.N%2)}
+		g.SetName(s.Name)
+		m.Globals = append(m.Globals, g)
+	case "gas":
+		// the address space of a global is set (also back to 0)
+		if len(m.Globals) == 0 {
+			return
+		}
+		m.Globals[s.I%len(m.Globals)].AddrSpace = types.AddrSpace(s.N % 3)
+	case "gswap":
+		// two global variables change places in the module's list
+		if len(m.Globals) < 2 {
+			return
+		}
+		i, j := s.I%len(m.Globals), s.C%len(m.Globals)
+		m.Globals[i], m.Globals[j] = m.Globals[j], m.Globals[i]
 	case "allocagep":
 		// an alloca, a getelementptr on it and a load through the result: the types
 		// of the last two derive from the first
@@ -581,7 +612,9 @@ func obsValue(v value.Value, kind int) {
 	}
 }
 
-const c14Template = `define i32 @pf1({ i32, i32 } %a, { i32, i32 }* %q) {
+const c14Template = `@as3 = addrspace(3) global i32 7
+@as1 = addrspace(1) global i32 8
+define i32 @pf1({ i32, i32 } %a, { i32, i32 }* %q) {
 entry:
   ret i32 0
 }
@@ -594,6 +627,8 @@ entry:
   %c1 = call i32 @pf1({ i32, i32 } undef, { i32, i32 }* null)
   %c2 = call i32 ({ i32, i32 }, { i32, i32 }*, ...) @pf2({ i32, i32 } undef, { i32, i32 }* null)
   %s = add i32 %c1, %c2
+  %l3 = load i32, i32 addrspace(3)* @as3
+  %l1 = load i32, i32 addrspace(1)* @as1
   ret i32 %s
 }
 `
@@ -616,15 +651,25 @@ func genHistory(rng *rand.Rand, n int, fenced bool) []hstep {
 	unnamedFuncExists := false
 	if !fenced && rng.Intn(3) == 0 {
 		steps = append(steps, hstep{Op: "parse"})
-		funcs = append(funcs, fshape{blocks: []int{0}}, fshape{blocks: []int{0}}, fshape{blocks: []int{3}})
+		funcs = append(funcs, fshape{blocks: []int{0}}, fshape{blocks: []int{0}}, fshape{blocks: []int{5}})
 	} else {
 		steps = append(steps, hstep{Op: "func", Name: name(false), N: rng.Intn(4), Kind: rng.Intn(8), A: rng.Intn(2)})
 		funcs = append(funcs, fshape{blocks: []int{0}})
 	}
 	for len(steps) < n {
-		r := rng.Intn(133)
+		r := rng.Intn(139)
 		fi := rng.Intn(len(funcs))
 		switch {
+		case r >= 137:
+			steps = append(steps, hstep{Op: "gliteral", Name: name(false), N: rng.Intn(9)})
+		case r >= 136 && !fenced:
+			steps = append(steps, hstep{Op: "gswap", I: rng.Intn(9), C: rng.Intn(9)})
+		case r >= 135:
+			steps = append(steps, hstep{Op: "gas", I: rng.Intn(9), N: rng.Intn(9)})
+		case r >= 133:
+			bi := rng.Intn(len(funcs[fi].blocks))
+			steps = append(steps, hstep{Op: "gload", F: fi, B: bi, I: rng.Intn(9), Name: name(false)})
+			funcs[fi].blocks[bi]++
 		case r >= 132 && !fenced:
 			steps = append(steps, hstep{Op: "allocaas", I: rng.Intn(9), N: rng.Intn(9)})
 		case r >= 130 && !fenced:
@@ -804,6 +849,8 @@ func genC14(ctx *fw.Ctx) []fw.Case {
 	}
 	cases = append(cases, fw.Case{ID: "witness/renumbering", Run: c14Witnesses})
 	cases = append(cases, fw.Case{ID: "witness/literal-built", Run: c14LiteralBuilt})
+	cases = append(cases, fw.Case{ID: "witness/literal-constants", Run: c14LiteralConstants})
+	cases = append(cases, fw.Case{ID: "witness/failed-print", Run: c14FailedPrint})
 	return cases
 }
 
@@ -1098,4 +1145,152 @@ func c14LiteralBuilt(r *fw.Rec) {
 	}
 	r.Nontrivial("witness/literal-built")
 	r.Tally("witness", "holds:literal-built")
+}
+
+// c14LiteralConstants: aggregate constants built as struct literals (their type
+// is computed when first asked for) as initializers of literal-built globals
+// and as operands. The module must print the same with and without Type() /
+// String() / Ident() having been called on the constants before, without panic.
+func c14LiteralConstants(r *fw.Rec) {
+	one := func() constant.Constant { return constant.NewInt(types.I32, 1) }
+	kinds := []struct {
+		name string
+		mk   func() constant.Constant
+		typ  types.Type // the type of the constant, written independently (content type of the global)
+	}{
+		{"struct", func() constant.Constant {
+			return &constant.Struct{Fields: []constant.Constant{one(), constant.NewInt(types.I8, 2)}}
+		}, types.NewStruct(types.I32, types.I8)},
+		{"empty-struct", func() constant.Constant { return &constant.Struct{} }, types.NewStruct()},
+		{"nested-struct", func() constant.Constant {
+			return &constant.Struct{Fields: []constant.Constant{&constant.Struct{Fields: []constant.Constant{one()}}, one()}}
+		}, types.NewStruct(types.NewStruct(types.I32), types.I32)},
+		{"array", func() constant.Constant { return &constant.Array{Elems: []constant.Constant{one(), one()}} }, types.NewArray(2, types.I32)},
+		{"vector", func() constant.Constant { return &constant.Vector{Elems: []constant.Constant{one(), one()}} }, types.NewVector(2, types.I32)},
+		{"array-of-struct", func() constant.Constant {
+			return &constant.Array{Elems: []constant.Constant{&constant.Struct{Fields: []constant.Constant{one()}}, &constant.Struct{Fields: []constant.Constant{one()}}}}
+		}, types.NewArray(2, types.NewStruct(types.I32))},
+	}
+	for _, k := range kinds {
+		for _, observer := range []string{"Type", "String", "Ident"} {
+			r.Eval(1)
+			run := func(withObserver bool) (string, string) {
+				var text string
+				p, msg, _ := fw.Guard(func() {
+					m := ir.NewModule()
+					c := k.mk()
+					if withObserver {
+						_ = c.Type() // (every observer is preceded by Type(): it is the documented way to learn the type)
+						switch observer {
+						case "String":
+							_ = c.String()
+						case "Ident":
+							_ = c.Ident()
+						}
+					}
+					g := &ir.Global{ContentType: k.typ, Init: c}
+					g.SetName("g")
+					m.Globals = append(m.Globals, g)
+					f := m.NewFunc("f", types.Void)
+					b := f.NewBlock("")
+					b.Insts = append(b.Insts, &ir.InstStore{Src: k.mk(), Dst: g})
+					b.NewRet(nil)
+					if withObserver {
+						_ = g.Type()
+					}
+					text = g.LLString() + "\n" + m.String() + "\n" + m.String()
+				})
+				if p {
+					return "", firstLine(msg)
+				}
+				return text, ""
+			}
+			ref, refMsg := run(true)
+			got, gotMsg := run(false)
+			key := "literal-constants/" + k.name + "/" + observer
+			switch {
+			case refMsg != "":
+				r.Tally("witness", "literal-constants:unprintable-even-after-observers:"+k.name+":"+classify(refMsg))
+				r.Nontrivial(key)
+			case gotMsg != "":
+				r.Violate(fw.Violation{Key: "observer-needed/" + key, What: "a global initialised with a " + k.name + " constant built as a struct literal prints after " + observer + "() was called on the constant, and panics when it was not: " + gotMsg, Expected: ref})
+			case ref != got:
+				r.Violate(fw.Violation{Key: "observer-changes-text/" + key, What: "the module prints differently with and without a prior " + observer + "() on the constant: " + firstDiffLines(ref, got), Expected: ref, Observed: got})
+			default:
+				r.Nontrivial(key)
+				r.Tally("witness", "holds:literal-constants")
+			}
+		}
+	}
+}
+
+// c14FailedPrint: an observation that fails is an observation too. A module
+// under construction whose last block has no terminator yet cannot be printed
+// (the printer panics; the client recovers and goes on building). After the
+// function was completed its print, and the print of any other module, must be
+// what it is without the failed attempt.
+func c14FailedPrint(r *fw.Rec) {
+	build := func(complete bool) (*ir.Module, *ir.Block, *ir.InstMul) {
+		m := ir.NewModule()
+		m.NewGlobalDef("g", constant.NewInt(types.I32, 1))
+		f := m.NewFunc("f", types.I32, ir.NewParam("x", types.I32))
+		entry := f.NewBlock("entry")
+		v := entry.NewAdd(f.Params[0], constant.NewInt(types.I32, 1))
+		next := f.NewBlock("")
+		entry.NewBr(next)
+		w := next.NewMul(v, v)
+		if complete {
+			next.NewRet(w)
+		}
+		return m, next, w
+	}
+	other := func() *ir.Module {
+		m := ir.NewModule()
+		f := m.NewFunc("other", types.Void)
+		f.NewBlock("only").NewRet(nil)
+		return m
+	}
+	refM, _, _ := build(true)
+	ref, pp := printGuard(refM)
+	refOther, _ := printGuard(other())
+	if pp != "" {
+		r.Inconclusive("reference module cannot be printed")
+		return
+	}
+	for _, observer := range []string{"Module.String", "Func.LLString", "Block.LLString", "Module.WriteTo"} {
+		r.Eval(1)
+		m, last, w := build(false)
+		failed, _, _ := fw.Guard(func() {
+			switch observer {
+			case "Module.String":
+				_ = m.String()
+			case "Func.LLString":
+				_ = m.Funcs[0].LLString()
+			case "Block.LLString":
+				_ = last.LLString()
+			default:
+				var sb strings.Builder
+				_, _ = m.WriteTo(&sb)
+			}
+		})
+		// another module is printed right after the failed attempt
+		gotOther, _ := printGuard(other())
+		last.NewRet(w)
+		got, pp2 := printGuard(m)
+		key := "failed-print/" + observer
+		if pp2 != "" {
+			r.Violate(fw.Violation{Key: key, What: "after a failed print (recovered) the completed module cannot be printed: " + firstLine(pp2)})
+			continue
+		}
+		if got != ref {
+			r.Violate(fw.Violation{Key: key, What: fmt.Sprintf("the module was printed once while incomplete (%s, panicked=%v) and completed afterwards: its print differs from the print of the same module built without that attempt: %s", observer, failed, firstDiffLines(ref, got)), Expected: ref, Observed: got})
+			continue
+		}
+		if gotOther != refOther {
+			r.Violate(fw.Violation{Key: key + "/other-module", What: "an unrelated module printed right after a failed print of another module is not printed as usual: " + firstDiffLines(refOther, gotOther), Expected: refOther, Observed: gotOther})
+			continue
+		}
+		r.Nontrivial(key)
+		r.Tally("witness", fmt.Sprintf("holds:failed-print/%s/panicked=%v", observer, failed))
+	}
 }
